@@ -89,7 +89,11 @@ class _Env:
         e = self
         while e is not None:
             if name in e.vars:
-                return e.vars[name]
+                v = e.vars[name]
+                if v[0] == '#alias':
+                    # `a = self.x = []`: one object under two names; reads and in-place changes go to the primary name
+                    return e.get(v[1]) if v[1] != name else None
+                return v
             e = e.parent
         return None
 
@@ -104,6 +108,9 @@ class _Env:
         e = self
         while e is not None:
             if name in e.vars:
+                if e.vars[name][0] == '#alias' and e.vars[name][1] != name:
+                    e.setdeep(e.vars[name][1], t)
+                    return
                 e.vars[name] = t
                 return
             e = e.parent
@@ -283,6 +290,14 @@ class Sym:
             val = self.ev(st.value, env, fr)
             for t in st.targets:
                 self._assign(t, val, env, fr, st.value)
+            if len(st.targets) > 1 and val in (('list', ()), ('dict', ()), ('call', 'set', ())):
+                # chained assignment of a fresh container: the targets name one object
+                keys = [t.id if isinstance(t, ast.Name) else f'self.{t.attr}' if (isinstance(t, ast.Attribute) and isinstance(t.value, ast.Name)
+                        and env.get(t.value.id) == ('self',) and fr.depth == 0) else None for t in st.targets]
+                prim = next((k for k in keys if k and k.startswith('self.')), None) or next((k for k in keys if k), None)
+                for k in keys:
+                    if k and k != prim and prim and not k.startswith('self.'):
+                        env.set(k, ('#alias', prim))
             return None
         if isinstance(st, ast.AnnAssign):
             if st.value is not None:
@@ -426,6 +441,14 @@ class Sym:
         v = self.ev(ret.value, venv, fr) if ret.value is not None else NONE_T
         seq = self.ev(st.iter, env, fr)
         varnames = tuple(vars_[x] for x in sorted(vars_, key=lambda x: self._target_order(st.target).index(x)))
+        if seq[0] in ('tuple', 'list') and 0 < len(seq[1]) <= 4 and len(varnames) == 1:
+            # a search over a literal sequence: unrolled, first hit wins  ->  (cond, value) of the equivalent if / elif chain
+            tests = [substitute(c, {varnames[0]: e_}) for e_ in seq[1]]
+            vals = [substitute(v, {varnames[0]: e_}) for e_ in seq[1]]
+            val = vals[-1]
+            for t_, v_ in zip(reversed(tests[:-1]), reversed(vals[:-1])):
+                val = ('cond', t_, v_, val)
+            return (('or', tuple(tests)) if len(tests) > 1 else tests[0]), val
         exists = ('call', 'any', (('map', varnames, c, seq, None),))
         if any(_mentions(v, vn) for vn in varnames):
             v = ('call', 'first', (('map', varnames, v, seq, c),))
@@ -567,6 +590,10 @@ class Sym:
                     return
                 env.setdeep(name, ('call', 'append', (cur, v)))
                 return
+            if cur is not None and m == 'setdefault' and len(node.args) == 2 and cur[0] == 'acc' and cur[1] == 'dict':
+                # d.setdefault(k, v) as a statement: an entry k -> v (the first one wins where keys repeat; as a mapping of distinct keys the same)
+                self._emit(env, name, ('kv', self.ev(node.args[0], env, fr), self.ev(node.args[1], env, fr)))
+                return
             if cur is not None and m in ('extend', 'update') and len(node.args) == 1 and cur[0] == 'acc' and cur[1] == 'list':
                 self._emit(env, name, ('flat', self.ev(node.args[0], env, fr)))
                 return
@@ -605,7 +632,7 @@ class Sym:
         mutated = set()
         assigned = set()
         for n in ast.walk(st):
-            if isinstance(n, ast.Call) and isinstance(n.func, ast.Attribute) and isinstance(n.func.value, ast.Name) and n.func.attr in ('append', 'add', 'extend', 'update'):
+            if isinstance(n, ast.Call) and isinstance(n.func, ast.Attribute) and isinstance(n.func.value, ast.Name) and n.func.attr in ('append', 'add', 'extend', 'update', 'setdefault'):
                 mutated.add(n.func.value.id)
             if isinstance(n, ast.AugAssign) and isinstance(n.target, ast.Name) and isinstance(n.op, (ast.BitOr, ast.Add)):
                 mutated.add(n.target.id)
@@ -966,6 +993,10 @@ class Sym:
     def _ev_Name(self, node, env, fr):
         v = env.get(node.id)
         if v is not None:
+            if v[0] == 'closure' and len(v) == 3 and (v[1], v[2]) in getattr(self, '_closures', {}):
+                lam = self._closure_as_lambda(*self._closures[(v[1], v[2])], fr)
+                if lam is not None:
+                    return lam
             return v
         # flow-insensitive resolution of a single-assignment local (used when evaluating an isolated expression)
         if getattr(fr, 'resolve_locals', False):
@@ -1145,6 +1176,29 @@ class Sym:
 
     def _ev_Await(self, node, env, fr):
         return self.ev(node.value, env, fr)
+
+    def _closure_as_lambda(self, info, cenv, fr):
+        """`def f(x): return <expr>` used as a value (sort key, map function) is the lambda `lambda x: <expr>`."""
+        st = info.node
+        if not isinstance(st, ast.FunctionDef) or st.decorator_list:
+            return None
+        a = st.args
+        if a.vararg or a.kwarg or a.kwonlyargs or a.posonlyargs or a.defaults or not a.args:
+            return None
+        body = [b for b in st.body if not (isinstance(b, ast.Expr) and isinstance(b.value, ast.Constant))]
+        if len(body) != 1 or not isinstance(body[0], ast.Return) or body[0].value is None:
+            return None
+        if any(isinstance(n_, ast.Name) and n_.id == st.name for n_ in ast.walk(body[0].value)):
+            return None
+        uid = next(_uid)
+        e = _Env(cenv)
+        params = []
+        for p_ in a.args:
+            v = ('var', f'{p_.arg}#{uid}')
+            e.set(p_.arg, v)
+            params.append(v)
+        sub = _Frame(Ctx(info, fr.ctx.recv), fr.self_term, fr.self_cls, fr.depth)
+        return ('lam', tuple(params), self.ev(body[0].value, e, sub))
 
     def _ev_Lambda(self, node, env, fr):
         uid = next(_uid)
@@ -1622,6 +1676,17 @@ def truth_under(t, decide):
             return truth(c[2]) if v else truth(c[3])
         return None
     return truth(t)
+
+
+def factor_cond(t):
+    """c ? Cat[a, s, x] : Cat[b, s, x]  is  Cat[c ? a : b, s, x]: a decision between two concatenations of the same shape is moved into the
+    parts that differ (the inverse of lifting; used by rules that read the shape of a rendered text)."""
+    if not (isinstance(t, tuple) and t and t[0] == 'cond'):
+        return t
+    a, b = factor_cond(t[2]), factor_cond(t[3])
+    if a[0] == 'cat' and b[0] == 'cat' and len(a[1]) == len(b[1]):
+        return ('cat', tuple(x if x == y else ('cond', t[1], x, y) for x, y in zip(a[1], b[1])))
+    return t
 
 
 def cond_leaves(t):
@@ -2327,7 +2392,48 @@ def decision_canon(t, max_atoms=10):
                 memo[i] = (x, r)
                 return r
         r = tuple(go(c) if isinstance(c, tuple) else c for c in x)
+        if isinstance(x[0], str) and x[0] not in _BINDERS and x[0] not in ('lit', 'and', 'or', 'not'):
+            r = lift(r)
         memo[i] = (x, r)
         return r
+
+    def cond_children(r):
+        """decisions that are operands of r (directly or inside its operand lists)"""
+        out = []
+        for c in r[1:]:
+            if isinstance(c, tuple) and c:
+                if c[0] == 'cond':
+                    out.append(c)
+                elif not isinstance(c[0], str):
+                    out.extend(e for e in c if isinstance(e, tuple) and e and e[0] == 'cond')
+        return out
+
+    def lift(r):
+        """K(.., c ? a : b, ..) is c ? K(.., a, ..) : K(.., b, ..): a decision taken inside an operand is the same decision taken around the
+        operation (terms have no effects), so `'%s=%s' % (x if c else y, z)` and `(.. % (x, z)) if c else (.. % (y, z))` get one form."""
+        cs = cond_children(r)
+        if not cs:
+            return r
+        raw = []
+        for c in cs:
+            collect(c, raw)
+        order = sorted(set(raw), key=term_hash)
+        if not order or len(order) > 3:
+            return r
+
+        def pick(c, val):
+            if isinstance(c, tuple) and c and c[0] == 'cond':
+                return ev_tree(c, val)
+            if isinstance(c, tuple) and c and not isinstance(c[0], str):
+                return tuple(ev_tree(e, val) if isinstance(e, tuple) and e and e[0] == 'cond' else e for e in c)
+            return c
+
+        def build(k, val):
+            if k == len(order):
+                return (r[0],) + tuple(pick(c, val) for c in r[1:])
+            hi = build(k + 1, {**val, order[k]: True})
+            lo = build(k + 1, {**val, order[k]: False})
+            return hi if hi == lo else ('cond', order[k], hi, lo)
+        return build(0, {})
 
     return go(t)
